@@ -98,7 +98,7 @@ CONFIGS = {
     "dyn6":   (["leaf:A", "leaf:B", "single", "top"], [0, 2], 6, 1, 1),
     "outer":  (["leaf:A", "leaf:B", "single", "top", "tsum", "outer"], [0, 2], 5, 2, 1),
     "gc3":    (["single", "byKey:0", "byKey:1", "top", "leaf:A", "leaf:B"], [0, 2], 6, 2, 1),
-    "twin6":  (["twin:a", "twin:b", "single", "byKey:0"], [1, 2], 6, 1, 1),
+    "twin6":  (["twin:a", "twin:b", "single", "byKey:0"], [1], 6, 1, 1),      # ([1, 2]: > 1e6 states, does not finish in 25 min)
 }
 
 PLAN = {
